@@ -46,7 +46,7 @@ def run(tier, replay=None):
     v.coverage["checker_cmd"] = "tlc MC_Transport (c08, q, XF_*); tlc MC_Discovery; tlc Trace_Transport; go build -race"
     # optional strengthening (never a verdict about the code): the mutual-exclusion core of Transport for ANY number of calls
     pr = vflib.tlaps("TransportProofs")
-    v.coverage["tlaps"] = {"module": "spec/proofs/TransportProofs.tla", "what": "inductive invariant MutexInv of spec/Transport.tla (one guard holder, held exactly between Lock and Finish, sockets only with the holder) => at most one socket on the fixed port, nothing held after Finish, the bind in Send never fails; unbounded in calls / timeout / plans / strays",
+    v.coverage["tlaps"] = {"module": "spec/proofs/TransportProofs.tla", "what": "inductive invariants of spec/Transport.tla, unbounded in calls / timeout / plans / strays: MutexInv (one guard holder, held exactly between Lock and Finish, sockets only with the holder => at most one socket on the fixed port, nothing held after Finish, the bind in Send never fails), TimeInv (deadline = asked + T, never passed while the call waits, no time-out before it), SendsInv (at most one request per call, for every variant of the model)",
                            "obligations": pr[0] if pr else None, "proved": pr[1] if pr else None, "wall_s": pr[2] if pr else None,
                            "status": "all proved" if pr and pr[0] == pr[1] else "not discharged in this run (the claim then rests on the TLC bound)"}
     return v.finish()
